@@ -199,6 +199,7 @@ func cmdMultiRun(args []string) {
 			hdr.Cfg.Limit = 255
 			must(json.Unmarshal(line, &hdr))
 			cfg = hdr.Cfg
+			ledgerIndexBase = cfg.Index0
 			return
 		}
 		var raw []json.RawMessage
